@@ -127,6 +127,8 @@ fn main() {
         ("negative_last_byte_00", Box::new(|d| d[0] >= 0x80 && d[19] == 0x00)),
         ("first_byte_7f", Box::new(|d| d[0] == 0x7f)),
         ("first_nibble_f", Box::new(|d| d[0] >= 0xf0)),
+        ("first_bytes_00_8x", Box::new(|d| d[0] == 0x00 && d[1] >= 0x80)),   // positive: the zero byte carries the sign
+        ("first_bytes_ff_0x", Box::new(|d| d[0] == 0xff && d[1] < 0x80)),    // negative: the ff byte carries the sign
     ];
     let mut tries_total: u64 = 0;
     for (ci, (name, want)) in classes.iter().enumerate() {
